@@ -308,6 +308,7 @@ func checkC11(cc Case, r *simrt.Result) *Outcome {
 		probe(o, "listener-fired", fired > 0)
 	}
 	probe(o, "racy-deliveries", c.Meta["racy"] == 1)
+	probe(o, "event-nodes-inside-sub-process", c.Meta["nested"] > 0)
 	probe(o, "burst-behind-slow-subscriber", c.Meta["burst"] == 1)
 	probe(o, "more-events-than-inbox", calls > 3)
 	probe(o, "untaken-branch-listener", c.Meta["shape"] == 2)
@@ -614,6 +615,7 @@ func checkC14(cc Case, r *simrt.Result) *Outcome {
 	probe(o, "concurrent-deliveries", concurrent && !burst)
 	probe(o, "burst-behind-a-stalled-node", burst)
 	probe(o, "process-without-activities", c.Meta["bare"] == 1)
+	probe(o, "event-nodes-inside-sub-process", c.Meta["nested"] > 0)
 	o.Sample = map[string]any{"program": c.Prog.Desc, "matches_per_definition": matches, "fires": fires}
 	return o
 }
@@ -834,6 +836,7 @@ func checkC06(cc Case, r *simrt.Result) *Outcome {
 	probe(o, "events-race-with-arming", hasTag(c.Prog.Tags, "events-race-with-arming"))
 	probe(o, "gateway-re-entered", c.Meta["acts"] > 1 && det > 1)
 	probe(o, "two-tokens-at-the-gateway", c.Meta["two"] == 1)
+	probe(o, "event-nodes-inside-sub-process", c.Meta["nested"] > 0)
 	probe(o, "two-tokens-at-the-gateway-both-continued", c.Meta["two"] == 1 && det > 1)
 	probe(o, "several-competitors-delivered", func() bool {
 		n := 0
@@ -987,6 +990,34 @@ func genC10(d *Draw) Case {
 	c.Picks = drawPicks(d, 32)
 	c.Meta = map[string]int{"two": b2i(two), "nb": nb, "subhost": b2i(subHost), "loop": b2i(loop), "burst": b2i(burst)}
 	nestEvents(d, c)
+	if !subHost && !two && d.N(3) == 2 {
+		// the host's answer carries an error: without handler or with a skip decision the token leaves the host
+		// over its normal flow, with an exit decision it ends there, with a retry decision the host is requested
+		// again and keeps waiting - and its boundary events must react exactly as long as it waits
+		var script []AnswerSpec
+		desc := ""
+		switch d.N(4) {
+		case 0:
+			script = []AnswerSpec{{Mode: "err"}}
+			desc = "error without handler"
+		case 1:
+			script = []AnswerSpec{{Mode: "skip", LateHandler: d.N(3) == 2}}
+			desc = "error, skip"
+		case 2:
+			script = []AnswerSpec{{Mode: "exit", LateHandler: d.N(3) == 2}}
+			desc = "error, exit"
+		case 3:
+			n := 1 + d.N(2)
+			for k := 0; k < n; k++ {
+				script = append(script, AnswerSpec{Mode: "retry", Retries: n})
+			}
+			desc = fmt.Sprintf("error, retry(%d), then success", n)
+		}
+		c.Scripts = map[string][]AnswerSpec{"H": script}
+		c.Prog.Desc += " [host answered: " + desc + "]"
+		c.Prog.Tags = append(c.Prog.Tags, "host-answered-with-error")
+		c.Meta["hosterr"] = 1
+	}
 	return c
 }
 
@@ -1063,6 +1094,8 @@ func checkC10(cc Case, r *simrt.Result) *Outcome {
 	probe(o, "interrupting-fired", intrFired)
 	probe(o, "two-tokens-in-host", c.Meta["two"] == 1)
 	probe(o, "sub-process-host", c.Meta["subhost"] == 1)
+	probe(o, "event-nodes-inside-sub-process", c.Meta["nested"] > 0)
+	probe(o, "host-answered-with-error", c.Meta["hosterr"] == 1)
 	probe(o, "host-re-entered-through-loop", c.Meta["loop"] == 1)
 	probe(o, "event-burst", c.Meta["burst"] == 1)
 	probe(o, "clean-stratum-run", len(o.Tags) == 0 && fired > 0)
